@@ -2,7 +2,11 @@
 
 package dns_naming
 
-import "github.com/irai/packet"
+import (
+	"fmt"
+
+	"github.com/irai/packet"
+)
 
 // VerifNew is New without the three multicast listening sockets (none of the
 // Process*/Send* paths uses them), so that checks do not bind UDP ports.
@@ -12,4 +16,20 @@ func VerifNew(session *packet.Session) *DNSHandler {
 	h.DNSTable = make(map[string]packet.DNSEntry, 256)
 	h.mdnsCache = make(map[string]cache)
 	return h
+}
+
+// VerifMDNSCache renders the handler's mDNS response cache (key, names and
+// addresses of the cached entries) so that checks can compare it between runs.
+func (h *DNSHandler) VerifMDNSCache() []string {
+	h.mutex.RLock()
+	defer h.mutex.RUnlock()
+	out := make([]string, 0, len(h.mdnsCache))
+	for k, c := range h.mdnsCache {
+		s := fmt.Sprintf("%x id=%d", k, c.id)
+		for _, e := range append(append([]packet.IPNameEntry{}, c.ipv4...), c.ipv6...) {
+			s += fmt.Sprintf(" [%x %v %q %q]", []byte(e.Addr.MAC), e.Addr.IP, e.NameEntry.Name, e.NameEntry.Model)
+		}
+		out = append(out, s)
+	}
+	return out
 }
